@@ -2,6 +2,7 @@ import Driver.Util
 import Driver.Volume
 import Driver.Wopn
 import Driver.BankMap
+import Driver.Pitch
 
 def main (args : List String) : IO UInt32 := do
   let stdin ← IO.getStdin
@@ -9,6 +10,7 @@ def main (args : List String) : IO UInt32 := do
   match args with
   | ["volume"] => Driver.loop stdin stdout Driver.Volume.step (); return 0
   | ["bankmap"] => Driver.loop stdin stdout Driver.BankMap.step Driver.BankMap.init; return 0
+  | ["pitch"] => Driver.loop stdin stdout Driver.Pitch.step (); return 0
   | ["wopn"] => Driver.loop stdin stdout Driver.Wopn.step (); return 0
   | _ =>
     IO.eprintln "usage: opnmodel <component>   (ops on stdin, one observation line per op on stdout)"
